@@ -669,6 +669,19 @@ def generate(prop, run_seed, tier='quick', tolerate=frozenset()):
         dts = crng.sample([1, 500, 30000, 65536, 66000, 2 ** 17, 0.5, 536,
                            0, 0.25, 2 ** 30, 2 ** 29],
                           crng.randint(2, 5))
+    elif crng.random() < .06:
+        # exact rational time steps that are not binary fractions (and huge
+        # integer waits): still "exactly representable" - as Fractions/ints
+        dts = [['F', 1, 10], ['F', 1, 3], ['F', 2, 5], 1, ['F', 1, 10]]
+        for co in coros:
+            co['yields'] = [crng.choice([1, 2, ['F', 1, 2], ['F', 7, 10],
+                                         2 ** 53 + 1, 1]) if (
+                y != 'N' and not isinstance(y, bool) and (
+                    isinstance(y, list) or (isinstance(y, (int, float))
+                                            and y > 0))) else y
+                for y in co['yields']]
+        if crng.random() < .3:
+            dts = [2 ** 53, 1, 1, 2 ** 52]
     elif crng.random() < .1:
         # frames a hair short of a deadline (and the hair that completes
         # it): "never earlier" with no tolerance; still exact in binary
